@@ -69,8 +69,9 @@ def live_set(history, max_age):
     latest = {}
     for ev in history:
         if ev[0] == "p":
-            _, prio, src, pref, lo, hi = ev
-            latest[(prio, src)] = (prio, src, pref, lo, hi, now)
+            _, prio, src, pref, lo, hi = ev[:6]
+            # an optional 7th element: the proposal's creation time relative to its arrival (<= 0: stamped in the past)
+            latest[(prio, src)] = (prio, src, pref, lo, hi, now + (ev[6] if len(ev) > 6 else 0.0))
         else:
             now += ev[1]
             latest = {k: v for k, v in latest.items() if now - v[5] <= max_age}
